@@ -1472,7 +1472,7 @@ func skipSignature(c *core.Ctx, code int64) string {
 	return normSeqs(m.RSeqs(f))
 }
 
-var reReadResult = regexp.MustCompile(`phi\((?:[^()]|\([^()]*\))*\)|sr\.[A-Za-z0-9_]+\(\$0\)#\d+`)
+var reReadResult = regexp.MustCompile(`phi\((?:[^()]|\([^()]*\))*\)|sr\.[A-Za-z0-9_]+(?:@\d+)?\(\$0\)#\d+`)
 
 // canonNames replaces every distinct read-result expression by T1, T2, ... in
 // order of first appearance, so that a signature does not depend on which
@@ -1495,7 +1495,7 @@ var skipSigWant = map[int64]string{
 	2: "[discard(fixedWidth($1))]", 3: "[discard(fixedWidth($1))]", 4: "[discard(fixedWidth($1))]", 6: "[discard(fixedWidth($1))]", 8: "[discard(fixedWidth($1))]", 10: "[discard(fixedWidth($1))]",
 	11: "[be32→ discard(T1)]",
 	12: "[alt{u8→|u8→ loop:discard(c:2) loop:call:Skip(T1) loop:u8→}]",
-	13: "[u8→ u8→ be32→ alt{!fw(T1)>0|!fw(T1)>0 loop:call:Skip(T1) loop:call:Skip(T1)|fw(T1)>0 !fw(T1)>0|fw(T1)>0 !fw(T1)>0 loop:call:Skip(T1) loop:call:Skip(T1)|fw(T1)>0 fw(T1)>0 discard((T2*(fixedWidth(T1)+fixedWidth(T1))))}]",
+	13: "[u8→ u8→ be32→ alt{!fw(T1)>0|!fw(T1)>0 loop:call:Skip(T1) loop:call:Skip(T2)|fw(T1)>0 !fw(T2)>0|fw(T1)>0 !fw(T2)>0 loop:call:Skip(T1) loop:call:Skip(T2)|fw(T1)>0 fw(T2)>0 discard((T3*(fixedWidth(T1)+fixedWidth(T2))))}]",
 	14: "[u8→ be32→ alt{!fw(T1)>0|!fw(T1)>0 loop:call:Skip(T1)|fw(T1)>0 discard((fixedWidth(T1)*T2))}]",
 	15: "[u8→ be32→ alt{!fw(T1)>0|!fw(T1)>0 loop:call:Skip(T1)|fw(T1)>0 discard((fixedWidth(T1)*T2))}]",
 }
